@@ -74,8 +74,8 @@ def tlfNibble (b : UInt8) : Nat := (b &&& 0x0F).toNat
 def tlfLoop (len tlfLen : Nat) : Bytes → Except PErr (Nat × Nat × Bytes)
   | [] => .error .unexpectedEOF
   | b :: rest =>
-    if tlfLen + 1 > u32Max then .error (.panic "tlf.rs:69 tlf_len overflow")
-    else if tlfTyBits b ≠ 0 then .error .tlfNextByteTypeMismatch
+    -- `tlf_len` is a usize (after the fix): no overflow on inputs shorter than 2^64 bytes
+    if tlfTyBits b ≠ 0 then .error .tlfNextByteTypeMismatch
     else if len * 16 > u32Max then .error .tlfLengthOverflow
     else
       let len := len * 16 + tlfNibble b
@@ -99,7 +99,8 @@ def parseTlf (input : Bytes) : PRes Tlf :=
         | .error e => .error e
         | .ok (len, tlfLen, rest) =>
           if ty ≠ .listOf then
-            if len < tlfLen then .error .tlfLengthUnderflow
+            -- `u32::try_from(tlf_len).ok().and_then(|t| len.checked_sub(t))`; `len ≤ u32Max` always
+            if tlfLen > u32Max ∨ len < tlfLen then .error .tlfLengthUnderflow
             else .ok ({ ty := ty, len := len - tlfLen }, rest)
           else .ok ({ ty := ty, len := len }, rest)
 
